@@ -401,7 +401,7 @@ def register_dfs(reg):
         file=GFA, func="GFA.dfs", params=dict(self=GFAT, start_node=STR), returns=ListT(STR), pure=True,
         types=dict(STR=STR, INT=INT), ufuns={"R": ([STR, STR], BOOL), "nbrpos": ([Node, STR], INT)}, spec_funcs=DFS_M,
         ghost=dict(sidx=MapT(STR, INT), opos=MapT(STR, INT)),
-        ghost_at={"after:stack = [start_node]": "sidx[start_node] = 0", "after:stack.append(neighbour)": "sidx[neighbour] = len(stack) - 1",
+        ghost_at={"before:if start_node not in self": "opos = const_map(opos, 0)", "after:stack = [start_node]": "sidx[start_node] = 0", "after:stack.append(neighbour)": "sidx[neighbour] = len(stack) - 1",
                   "after:ordered_dfs_out.append(s)": "opos[s] = len(ordered_dfs_out) - 1"},
         locals=dict(stack=ListT(STR), dfs_out=SetT(STR), ordered_dfs_out=ListT(STR)),
         requires=["forall([STR, STR], lambda a, b: implies(a in self.nodes and adj(self, a, b), b in self.nodes and adj(self, b, a)))"] + R_REQ,
@@ -419,7 +419,7 @@ def register_dfs(reg):
             "empty-iff-unknown-start": "(len(result) == 0) == (start_node not in self.nodes)",
             "starts-at-the-start-node": "implies(start_node in self.nodes, result[0] == start_node)",
             "each-node-exactly-once": "forall(lambda i, j: implies(0 <= i < j < len(result), result[i] != result[j]))",
-            "closed-under-adjacency": "forall([INT, STR], lambda i, y: implies(0 <= i < len(result) and adj(self, result[i], y), exists(lambda j: 0 <= j < len(result) and result[j] == y)))",
+            "closed-under-adjacency": "forall([INT, STR], lambda i, y: implies(0 <= i < len(result) and adj(self, result[i], y), 0 <= opos[y] < len(result) and result[opos[y]] == y))",
             "only-nodes-of-the-component": "forall(lambda i: implies(0 <= i < len(result), result[i] in self.nodes and R(start_node, result[i])))",
         },
     ))
